@@ -4,11 +4,13 @@
 mod facts;
 mod observer;
 mod record;
+mod spill;
 
 fn main() {
     let a: Vec<String> = std::env::args().collect();
     match a.get(1).map(|s| s.as_str()).unwrap_or("") {
         "record" => record::main(),
+        "spill" => spill::main(),
         _ => {
             eprintln!("usage: vcontract record --in cases.ndjson --out runs.ndjson");
             std::process::exit(2);
